@@ -209,6 +209,12 @@ func RunC06(c *Ctx) {
 	workload.W7Positions(72, sink)
 	workload.W7Triples(sink)
 	workload.W7Adjacent(workload.W7AdjAligns, workload.W7AdjTails, sink)
+	workload.W7LongPositions(sink)
+	workload.W1Len(func(cs *h.Case) {
+		if cs.P[2] == 0 {
+			sink(cs)
+		}
+	})
 	// string seeds of W1 in top-level position, every byte everywhere
 	workload.W1(c.Thorough(), func(cs *h.Case) {
 		if cs.P[0] < workload.TopLevelSeeds() {
